@@ -1,6 +1,6 @@
 """C09 — exchanging source and receiver leaves the energy-time curve unchanged."""
 import numpy as np
-from .. import common, kernels, pipeline, energy, scenes
+from .. import common, kernels, pipeline, energy, scenes, endtoend
 from . import c03
 
 LEVEL = 'proof'
